@@ -27,12 +27,40 @@ def all_templates():
     return {"name": "all-templates", "stmts": stmts, "battery": [], "replay": False}
 
 
+def authorization():
+    """Statements by restricted principals (written through the host control plane): `reader` may not write at all,
+    `creator` may create and update but not archive / tombstone / purge / assert - so a block whose first clauses are
+    permitted is refused by a later one."""
+    st = [{"text": g.upsert_person('alice', 'Alice')}, {"text": g.claim('bob', 'dark', '0.9')},
+          {"text": g.upsert_person('carol', 'Carol'), "as": "reader"},
+          {"text": g.claim('carol', 'light', '0.6'), "as": "reader"},
+          {"text": g.archive('Alice'), "as": "reader"},
+          {"text": g.upsert_person('carol', 'Carol'), "as": "creator"},
+          {"text": g.update_summary('Carol', 'by creator'), "as": "creator"},
+          {"text": 'MUTATE {\n %s\n %s\n}' % (g.upsert_person('dave', 'Dave'), g.archive('Alice')), "as": "creator"},
+          {"text": 'MUTATE {\n %s\n %s\n}' % (g.archive('Alice'), g.upsert_person('dave', 'Dave')), "as": "creator"},
+          {"text": g.claim('dave', 'tabs', '0.5'), "as": "creator"},
+          {"text": g.purge('Alice'), "as": "creator"},
+          {"text": g.tombstone('Carol'), "as": "creator"},
+          {"text": g.merge('Carol', 'Alice'), "as": "creator"},
+          {"text": g.upsert_person('dave', 'Dave'), "as": "creator", "dry": True},
+          {"text": g.archive('Alice')}, {"text": g.update_summary('Carol', 'by owner')}]
+    return {"name": "authorization", "stmts": st, "battery": [], "replay": False, "principals": True}
+
+
 def histories(tier):
     rng = random.Random(vlib.seed() + 17)
-    hs = [all_templates()]
+    hs = [all_templates(), authorization()]
     n, length = (40, 14) if tier == "quick" else (500, 22)
     for i in range(n):
-        hs.append(g.gen_history(rng, f"rand-{i}", length, with_purge=(i % 3 == 0), bad_ratio=0.45))
+        h = g.gen_history(rng, f"rand-{i}", length, with_purge=(i % 3 == 0), bad_ratio=0.45)
+        if i % 4 == 1:
+            # some statements are sent by the restricted principals
+            h["principals"] = True
+            for st in h["stmts"][2:]:
+                if rng.random() < 0.4:
+                    st["as"] = rng.choice(["reader", "creator"])
+        hs.append(h)
     for h in hs:
         h["battery"] = []            # C17 compares store dumps, not query answers
         h["replay"] = False
@@ -135,8 +163,9 @@ def run(tier):
                 "blocks with forward references, UPSERT / ENSURE hits and misses, EXPECT VERSION guards that fail, "
                 "unknown types as the first / middle / last clause, key conflicts only the commit-time identity pass "
                 "can see, duplicate ENSURE of one new tuple, unbound handles, supersession, retraction, archive / "
-                "tombstone / merge, purge (+ purge in a block that is refused at commit), every template also as a "
-                "dry run. Before and after every statement the WHOLE store is dumped (every row of every element "
+                "tombstone / merge, purge (+ purge in a block that is refused at commit), statements by restricted "
+                "principals (refused outright, or refused by a later clause of a block whose first clauses were "
+                "permitted), every template also as a dry run. Before and after every statement the WHOLE store is dumped (every row of every element "
                 "collection with engine state and version, the transaction journal, the version log, the space row, "
                 "tuple -> element and (type, key) -> concept). NexusTxTrace: a refused / dry-run / no-effect statement "
                 "leaves the dump unchanged (only the counter may move); a committed one satisfies CommitOK (fresh "
@@ -154,7 +183,8 @@ def run(tier):
     vlib.write_evidence(PROP, tier, "exploration", cov, time.time() - t0, n_viol, assumptions=[
         "readers run against a writer parked at its backend mutations (sampled: the first 6 and every 4th) with a 6 ms "
         "deadline; a reader that has not answered by then counts as held by the nexus lock",
-        "authorization refusals are exercised by C19, not here",
+        "authorization refusals come from two restricted principals (reader; creator without archive / tombstone / purge / "
+        "assert); the governance audit collection is not part of the dump (a refusal may be audited)",
     ])
     vlib.cleanup(wd)
     return n_viol
